@@ -1042,7 +1042,12 @@ type refResult struct {
 
 // run interprets the network for at most `rounds` rounds (one instruction per CP and round), stopping
 // early when nothing can move or every external output has `cap` values.
-func (n *refNet) run(in [][]uint64, rounds, cap int) *refResult {
+//
+// rendezvous=false: a bond between two CPs is an unbounded stream (the writer never waits): the longest
+// history any timing can produce, used for the prefix comparison. rendezvous=true: r2owa completes only
+// once the reader has taken the value (what the handshake of the machine does), used for the lower bound
+// on progress.
+func (n *refNet) run(in [][]uint64, rounds, cap int, rendezvous bool) *refResult {
 	rsz := n.Src.Rsize
 	mask := ^uint64(0)
 	if rsz < 64 {
@@ -1051,6 +1056,7 @@ func (n *refNet) run(in [][]uint64, rounds, cap int) *refResult {
 	for _, c := range n.Chans {
 		c.Hist, c.rd = nil, 0
 	}
+	waitAck := make([]bool, len(n.Progs))
 	for i, ci := range n.ExtIn {
 		if i < len(in) {
 			for _, v := range in[i] {
@@ -1138,7 +1144,21 @@ func (n *refNet) run(in [][]uint64, rounds, cap int) *refResult {
 					continue // nobody ever acknowledges an unattached output: waits for ever
 				}
 				ch := n.Chans[chI]
-				ch.Hist = append(ch.Hist, c.regs[in.Rs])
+				if rendezvous && ch.Dst.CP >= 0 {
+					if waitAck[ci] {
+						if ch.rd < len(ch.Hist) {
+							continue // not taken yet
+						}
+						waitAck[ci] = false
+					} else {
+						ch.Hist = append(ch.Hist, c.regs[in.Rs])
+						waitAck[ci] = true
+						moved = true
+						continue
+					}
+				} else {
+					ch.Hist = append(ch.Hist, c.regs[in.Rs])
+				}
 			}
 			moved = true
 			st.Steps++
